@@ -143,13 +143,16 @@ unsigned mon_slot_cas_n, mon_head_cas_n, mon_tail_cas_n, mon_next_cas_n, mon_hea
 uint64_t mon_slot_cas_e, mon_slot_cas_d, mon_slot_cas_clock, mon_slot_cas_seg, mon_slot_cas_idx; int mon_slot_cas_order; _Bool mon_slot_cas_ok;
 uint64_t mon_head_first, mon_head_last, mon_head_last_clock, mon_tail_first, mon_tail_last, mon_tail_last_clock;
 uint64_t mon_head_cas_e, mon_head_cas_d, mon_head_cas_clock, mon_tail_cas_e, mon_tail_cas_d, mon_tail_cas_clock, mon_next_cas_e, mon_next_cas_d, mon_next_cas_seg, mon_deleted_clock, mon_deleted_seg;
-_Bool mon_head_cas_ok, mon_tail_cas_ok, mon_next_cas_ok; int mon_head_cas_order, mon_tail_cas_order, mon_next_cas_order;
+_Bool mon_head_cas_ok, mon_tail_cas_ok, mon_next_cas_ok, mon_next_load_weak; int mon_head_cas_order, mon_tail_cas_order, mon_next_cas_order, mon_head_first_order, mon_tail_first_order;
 static void env_own_cas(void* addr, uint64_t e, uint64_t d, _Bool ok);
 static void mon_load(void* addr, uint64_t v, int o) {
   if (mon_probes_on && __CPROVER_same_object(addr, g_segs)) {
     for (unsigned j = 0; j < KMAX; j++) if (addr == (void*)&mon_seg->items[j].value) { if (mon_nprobe < NPROBE) mon_probe[mon_nprobe] = j; mon_nprobe++; }
   }
   if (!mon_log_on) return;
+  for (unsigned i = 0; i < LMAX; i++) if (addr == (void*)&g_segs[i].next && !XV_IS_ACQUIRE(o)) mon_next_load_weak = 1;
+  if (addr == (void*)&mon_q->tail_ && !mon_tail_loads) mon_tail_first_order = o;
+  if (addr == (void*)&mon_q->head_ && !mon_head_loads) mon_head_first_order = o;
   if (addr == (void*)&mon_q->tail_) { if (!mon_tail_loads) mon_tail_first = v; mon_tail_last = v; mon_tail_last_clock = xv_clock; mon_tail_loads++; }
   if (addr == (void*)&mon_q->head_) { if (!mon_head_loads) mon_head_first = v; mon_head_last = v; mon_head_last_clock = xv_clock; mon_head_loads++; }
 }
@@ -180,7 +183,7 @@ static void mon_cas(void* addr, uint64_t e, uint64_t d, _Bool ok, int o) {
 }
 static void mon_reset(struct kfq* q) {
   mon_q = q; mon_probes_on = 0; mon_log_on = 0; mon_scan_weak = 0; mon_adv_ok = 1; mon_deleted_first = 1; mon_plain_store_ht = 0; mon_nprobe = 0;
-  mon_slot_cas_n = 0; mon_head_cas_n = 0; mon_tail_cas_n = 0; mon_next_cas_n = 0; mon_head_loads = 0; mon_tail_loads = 0; mon_deleted_stores = 0;
+  mon_slot_cas_n = 0; mon_head_cas_n = 0; mon_tail_cas_n = 0; mon_next_cas_n = 0; mon_head_loads = 0; mon_tail_loads = 0; mon_deleted_stores = 0; mon_next_load_weak = 0;
   g_released_values = 0; g_stored = 0; g_del_once = 0; g_del_twice = 0; g_allocs = 0; g_mem_ok = 1; g_retire_ok = 1; g_release_ok = 1; g_pre_ok = 1; xv_threw = 0; xv_clock = 0;
 }
 
@@ -240,7 +243,7 @@ static void havoc_state(struct kfq* q, uint64_t k) {
   g_next_age = nondet_u16(); XV_ASSUME(g_next_age < 60000);
 }
 /* representation invariant over pool slots 0..L-1 (L = number of allocated slots, a prefix).  Branch-free. */
-static _Bool inv(struct kfq* q, uint64_t k, uint64_t* Lp, uint64_t* hpp, uint64_t* tpp) {
+static _Bool inv_shape(struct kfq* q, uint64_t k, uint64_t* Lp, uint64_t* hpp, uint64_t* tpp) {
   uint64_t L = 0; _Bool ok = 1;
   for (unsigned i = 0; i < LMAX; i++) { if (g_alloc[i]) { ok &= (L == i); L++; } }
   uint64_t hp = MV_get(q->head_) - 1, tp = MV_get(q->tail_) - 1;
@@ -253,17 +256,27 @@ static _Bool inv(struct kfq* q, uint64_t k, uint64_t* Lp, uint64_t* hpp, uint64_
     ok &= !((i == hp) & s->deleted) | (tp > hp);        /* ... and the current head only after tail has moved on */
     for (unsigned j = 0; j < KMAX; j++) if (j < k) {
       _Bool nn = MV_get(s->items[j].value) != 0;
-      ok &= !(((i < hp) | (i > tp)) & nn) & !((i > hp) & (i < tp) & !nn) & (!nn | (g_age[i][j] < g_next_age));
+      ok &= !(((i < hp) | (i > tp)) & nn) & !((i > hp) & (i < tp) & !nn);
       ok &= MV_get(s->items[j].value) != 0x100;        /* stored values are object pointers; 0x100 is excluded by a debugging assertion in do_pop */
-      for (unsigned i2 = 0; i2 < LMAX; i2++) if (i2 < L) for (unsigned j2 = 0; j2 < KMAX; j2++) if (j2 < k && !(i2 == i && j2 == j)) {
-        _Bool both = nn & (MV_get(g_segs[i2].items[j2].value) != 0);
-        ok &= !both | ((g_age[i][j] != g_age[i2][j2]) & (!(i < i2) | (g_age[i][j] < g_age[i2][j2])));
-      }
     }
   }
   *Lp = L; *hpp = hp; *tpp = tp;
   return ok;
 }
+/* ghost ages: distinct, below g_next_age, increasing from segment to segment */
+static _Bool inv_ages(uint64_t k, uint64_t L) {
+  _Bool ok = 1;
+  for (unsigned i = 0; i < LMAX; i++) if (i < L) for (unsigned j = 0; j < KMAX; j++) if (j < k) {
+    _Bool nn = MV_get(g_segs[i].items[j].value) != 0;
+    ok &= !nn | (g_age[i][j] < g_next_age);
+    for (unsigned i2 = i; i2 < LMAX; i2++) if (i2 < L) for (unsigned j2 = 0; j2 < KMAX; j2++) if (j2 < k && (i2 > i || j2 > j)) {
+      _Bool both = nn & (MV_get(g_segs[i2].items[j2].value) != 0);
+      ok &= !both | ((g_age[i][j] != g_age[i2][j2]) & (!(i < i2) | (g_age[i][j] < g_age[i2][j2])));
+    }
+  }
+  return ok;
+}
+static _Bool inv(struct kfq* q, uint64_t k, uint64_t* Lp, uint64_t* hpp, uint64_t* tpp) { _Bool a = inv_shape(q, k, Lp, hpp, tpp); return a & inv_ages(k, *Lp); }
 static unsigned count(uint64_t k, uint64_t L) { unsigned n = 0; for (unsigned i = 0; i < LMAX; i++) for (unsigned j = 0; j < KMAX; j++) if (i < L && j < k && MV_get(g_segs[i].items[j].value) != 0) n++; return n; }
 
 /* ---- SEQ contracts of the callees (no interference; call-site preconditions hold in every state satisfying inv) ---- */
@@ -320,7 +333,7 @@ static _Bool seg_eq(unsigned i, _Bool ignore_next, _Bool ignore_deleted) {
 }
 static void committed_seq_case(uint64_t k) {
   struct kfq q; havoc_state(&q, k); mon_reset(&q); uint64_t L, hp, tp;
-  XV_ASSUME(inv(&q, k, &L, &hp, &tp));
+  XV_ASSUME(inv_shape(&q, k, &L, &hp, &tp));
   uint64_t sp = nondet_u64(), sm = any_mark(), idx = nondet_u64(); XV_ASSUME(sp >= 1 && sp <= L);
   marked_ptr seg = MV_make(sp, sm); XV_ASSUME(idx < k);
   marked_value v = g_segs[sp - 1].items[idx].value;
@@ -336,7 +349,7 @@ static void committed_seq_case(uint64_t k) {
 void h_committed_seq(void) { FOR_K(committed_seq_case(k_)); }
 static void advance_tail_seq_case(uint64_t k) {
   struct kfq q; havoc_state(&q, k); mon_reset(&q); uint64_t L, hp, tp;
-  XV_ASSUME(inv(&q, k, &L, &hp, &tp));
+  XV_ASSUME(inv_shape(&q, k, &L, &hp, &tp));
   snapshot(); marked_ptr head0 = q.head_, tail0 = q.tail_;
   kfq_advance_tail(&q, tail0);
   _Bool had_next = tp + 1 < L;
@@ -350,7 +363,7 @@ static void advance_tail_seq_case(uint64_t k) {
 void h_advance_tail_seq(void) { FOR_K(advance_tail_seq_case(k_)); }
 static void advance_head_seq_case(uint64_t k) {
   struct kfq q; havoc_state(&q, k); mon_reset(&q); uint64_t L, hp, tp;
-  XV_ASSUME(inv(&q, k, &L, &hp, &tp));
+  XV_ASSUME(inv_shape(&q, k, &L, &hp, &tp));
   XV_ASSUME(seg_all_null(&g_segs[hp]));
   snapshot(); marked_ptr head0 = q.head_, tail0 = q.tail_; guard_ptr g = head0;
   kfq_advance_head(&q, &g, tail0);
@@ -465,7 +478,7 @@ static void dri_case(uint64_t k) {
 void h_delete_remaining(void) { FOR_K(dri_case(k_)); }
 static void dtor_case(uint64_t k) {
   struct kfq q; havoc_state(&q, k); mon_reset(&q); uint64_t L, hp, tp;
-  XV_ASSUME(inv(&q, k, &L, &hp, &tp));
+  XV_ASSUME(inv_shape(&q, k, &L, &hp, &tp));
   g_track = nondet_uptr(); XV_ASSUME(g_track != 0);
   _Bool stored = nondet_bool(); uint64_t it = nondet_u64(), jt = nondet_u64(); XV_ASSUME(it < L && jt < k);
   for (unsigned i = 0; i < LMAX; i++) for (unsigned j = 0; j < KMAX; j++) if (i < L && j < k) XV_ASSUME((MV_get(g_segs[i].items[j].value) == g_track) == (stored && i == it && j == jt));
@@ -478,3 +491,221 @@ static void dtor_case(uint64_t k) {
   if (L == 3 && hp == 0) XV_CANARY("dtor.three_segments");
 }
 void h_dtor(void) { FOR_K(dtor_case(k_)); }
+
+/* =====================================================================================================
+ * INT: committed() while other threads keep working  (kfq.push.commit, kfq.committed.withdrawn)
+ *
+ * Ghost view of the other threads (the rely, stated in unit.py).  P = pool slot 0 is the segment the pusher inserted into (slot e_idx, word e_item), O = pool slot 1
+ * stands for any other segment.  e_rel: where head_ is relative to P - 2: before P (P still ahead in the chain), 1: head_ points to P, 0: head_ has left P (P unlinked).
+ * e_taken: a consumer replaced the word.  e_can_adv: an advance_head that scanned P before the item was inserted is pending; it may mark P deleted and its head CAS
+ * succeeds if the head word is still the one it read.  A segment is marked deleted only by a thread that found it empty while it was the head segment, and before head_
+ * leaves it.  One environment step is the transitive closure of such moves.
+ * ===================================================================================================== */
+#ifdef XV_INT
+_Bool e_on, e_arbitrary, e_taken, e_withdrawn, e_can_adv; unsigned char e_rel; uint64_t e_hmark, e_idx; marked_value e_item; struct kfq* e_q;
+#define E_MARK_BOUND 0x7fff       /* 16-bit marks do not wrap during one call */
+static void env_own_cas(void* addr, uint64_t e, uint64_t d, _Bool ok) {
+  if (!e_on || e_arbitrary || !ok) return;
+  if (addr == (void*)&e_q->head_) { e_hmark = MV_mark(d); if (!e_taken && !e_withdrawn) e_can_adv = 0; }
+  if (addr == (void*)&g_segs[0].items[e_idx].value) e_withdrawn = 1;
+}
+static uint64_t env_ptr(_Bool may_be_null) { uint64_t p = nondet_u64(); XV_ASSUME(p <= LMAX - 1 && (may_be_null || p >= 1)); return p; }
+void xv_env(void) {
+  if (!e_on) return;
+  struct kfq* q = e_q;
+  if (e_arbitrary) {            /* validation runs: no rely beyond "pointers in shared cells point to live segments (the guards' job)"; pool slot LMAX-1 is never published by others */
+    q->head_ = MV_make(env_ptr(0), any_mark()); q->tail_ = MV_make(env_ptr(0), any_mark());
+    for (unsigned i = 0; i < LMAX - 1; i++) { g_segs[i].next = MV_make(env_ptr(1), any_mark()); if (nondet_bool()) g_segs[i].deleted = 1; for (unsigned j = 0; j < KMAX; j++) g_segs[i].items[j].value = nondet_u64(); }
+    return;
+  }
+  unsigned char nrel = nondet_uchar(); uint64_t nm = nondet_u64(); _Bool ntaken = nondet_bool(), ncan = nondet_bool(), ndel = nondet_bool();
+  _Bool present = !e_taken && !e_withdrawn, del = g_segs[0].deleted;
+  XV_ASSUME(nrel <= e_rel && nm >= e_hmark && nm < E_MARK_BOUND && (nrel == e_rel || nm > e_hmark));
+  XV_ASSUME((!e_taken || ntaken) && (!del || ndel) && (nrel != 0 || ndel) && (nrel != 2 || !ndel));
+  _Bool hchanged = nrel != e_rel || nm != e_hmark;
+  if (present && !ntaken) {
+    XV_ASSUME(!(e_rel == 2 && nrel == 0));                            /* head cannot pass through P while the item sits there ... */
+    XV_ASSUME(!(e_rel == 1 && nrel == 0) || e_can_adv);               /* ... and leaves P only by an advance prepared before the insertion */
+    XV_ASSUME(!(ndel && !del) || (e_rel == 1 && e_can_adv));          /* only that thread can mark P deleted */
+    XV_ASSUME(ncan == (hchanged ? 0 : e_can_adv));
+  } else {
+    XV_ASSUME(!(ndel && !del) || e_rel == 1 || (e_rel == 2 && nrel <= 1));      /* marked deleted only while/after being head */
+  }
+  e_rel = nrel; e_hmark = nm; e_can_adv = ncan; g_segs[0].deleted = ndel;
+  q->head_ = MV_make(nrel == 1 ? 1 : 2, nm);
+  if (present && ntaken) { marked_value nv = nondet_u64(); XV_ASSUME(nv != e_item); g_segs[0].items[e_idx].value = nv; e_taken = 1; }
+  else if (!present) { marked_value nv = nondet_u64(); XV_ASSUME(nv != e_item); g_segs[0].items[e_idx].value = nv; }
+}
+static void committed_int_case(uint64_t k) {
+  struct kfq q; q.k_ = k; mon_reset(&q); mon_log_on = 1; e_q = &q; e_arbitrary = 0; e_withdrawn = 0;
+  for (unsigned i = 0; i < LMAX; i++) { g_alloc[i] = 1; g_released[i] = 0; g_retired[i] = 0; g_segs[i].k = k; g_segs[i].next = nondet_u64(); g_segs[i].deleted = nondet_bool(); for (unsigned j = 0; j < KMAX; j++) g_segs[i].items[j].value = nondet_u64(); }
+  e_rel = nondet_uchar(); e_hmark = nondet_u64(); e_taken = nondet_bool(); e_can_adv = nondet_bool();
+  XV_ASSUME(e_rel <= 2 && e_hmark < E_MARK_BOUND && (e_rel != 0 || g_segs[0].deleted) && (e_rel != 2 || !g_segs[0].deleted));
+  q.head_ = MV_make(e_rel == 1 ? 1 : 2, e_hmark); q.tail_ = nondet_u64();
+  uint64_t v = nondet_u64(), m = nondet_u64(), sm = any_mark(); e_idx = nondet_u64();
+  XV_ASSUME(e_idx < k && v != 0 && v <= PTR_MASK && m <= 0xffff);
+  e_item = MV_make(v, m);
+  if (e_taken) XV_ASSUME(g_segs[0].items[e_idx].value != e_item); else g_segs[0].items[e_idx].value = e_item;
+  e_on = 1;
+  _Bool r = kfq_committed(&q, MV_make(1, sm), e_item, e_idx);
+  e_on = 0;
+  XV_OBL("kfq.committed.withdrawn", !(e_taken && e_withdrawn));
+  if (r) {
+    XV_OBL("kfq.push.commit", e_taken || (!e_withdrawn && g_segs[0].items[e_idx].value == e_item && e_rel != 0 && !(e_rel == 1 && e_can_adv)));
+    if (e_taken) XV_CANARY("committed.taken"); else if (e_rel == 1) XV_CANARY("committed.at_head"); else XV_CANARY("committed.ahead");
+    if (!e_taken && g_segs[0].deleted) XV_CANARY("committed.deleted_but_head");
+  } else {
+    XV_OBL("kfq.committed.withdrawn", e_withdrawn && !e_taken && g_segs[0].items[e_idx].value == MV_make(0, m + 1));
+    XV_CANARY("committed.withdrawn");
+  }
+  XV_OBL("kfq.advance.one_segment", !mon_plain_store_ht && g_mem_ok);
+  if (mon_head_loads) XV_OBL("kfq.sync.orders", XV_IS_ACQUIRE(mon_head_first_order));      /* (6) pairs with the release CAS of advance_head */
+}
+#endif
+void h_committed_int(void) {
+#ifdef XV_INT
+  FOR_K(committed_int_case(k_));
+#endif
+}
+
+/* =====================================================================================================
+ * INT: push / do_pop / advance_head / advance_tail validate what they read (arbitrary environment; push and do_pop: loop cut, callees = recording stubs)
+ * ===================================================================================================== */
+#if defined(XV_INT) && XV_STUB == 2
+unsigned rec_fi_n, rec_cm_n, rec_at_n, rec_ah_n; uint64_t rec_fi_seg, rec_fi_idx, rec_fi_old, rec_fi_clock, rec_cm_seg, rec_cm_v, rec_cm_idx, rec_cm_clock, rec_at_t, rec_at_clock, rec_ah_h, rec_ah_t, rec_ah_clock;
+_Bool rec_fi_ret, rec_cm_ret;
+static _Bool rec_find_index(struct kfq* self, uint64_t seg, uint64_t* idx_p, uint64_t* old_p, _Bool empty) {
+  xv_env();
+  rec_fi_n++; rec_fi_seg = seg; rec_fi_ret = nondet_bool(); rec_fi_idx = nondet_u64(); rec_fi_old = nondet_u64(); rec_fi_clock = ++xv_clock;
+  XV_ASSUME(rec_fi_idx < self->k_ && rec_fi_idx < KMAX);
+  if (rec_fi_ret) { XV_ASSUME((MV_get(rec_fi_old) == 0) == empty && MV_get(rec_fi_old) != 0x100); *idx_p = rec_fi_idx; }
+  *old_p = rec_fi_old;
+  xv_env();
+  return rec_fi_ret;
+}
+static _Bool rec_find_index_E(struct kfq* self, uint64_t seg, uint64_t* idx_p, uint64_t* old_p) { return rec_find_index(self, seg, idx_p, old_p, 1); }
+static _Bool rec_find_index_N(struct kfq* self, uint64_t seg, uint64_t* idx_p, uint64_t* old_p) { return rec_find_index(self, seg, idx_p, old_p, 0); }
+static _Bool rec_committed(struct kfq* self, uint64_t seg, uint64_t v, uint64_t idx) { xv_env(); rec_cm_n++; rec_cm_seg = seg; rec_cm_v = v; rec_cm_idx = idx; rec_cm_ret = nondet_bool(); rec_cm_clock = ++xv_clock; return rec_cm_ret; }
+static void rec_advance_tail(struct kfq* self, uint64_t t) { xv_env(); rec_at_n++; rec_at_t = t; rec_at_clock = ++xv_clock; xv_env(); }
+static void rec_advance_head(struct kfq* self, uint64_t* h, uint64_t t) { xv_env(); rec_ah_n++; rec_ah_h = *h; rec_ah_t = t; rec_ah_clock = ++xv_clock; if (nondet_bool()) *h = 0; xv_env(); }
+#endif
+static void pool_all_live(uint64_t k) {
+  for (unsigned i = 0; i < LMAX; i++) { g_alloc[i] = i < LMAX - 1; g_released[i] = 0; g_retired[i] = 0; g_segs[i].k = k; g_segs[i].next = MV_make(nondet_u64() % LMAX, any_mark()); g_segs[i].deleted = nondet_bool(); for (unsigned j = 0; j < KMAX; j++) g_segs[i].items[j].value = nondet_u64(); }
+}
+static void iter_reset(struct kfq* self) {
+#if defined(XV_INT)
+  uint64_t k = self->k_; mon_reset(self); mon_log_on = 1; self->k_ = k;
+  e_on = 1; xv_env();
+#if XV_STUB == 2
+  rec_fi_n = 0; rec_cm_n = 0; rec_at_n = 0; rec_ah_n = 0;
+#endif
+#endif
+}
+#if defined(XV_INT) && XV_STUB == 2
+static void push_int_case(uint64_t k) {
+  struct kfq q; q.k_ = k; pool_all_live(k); e_q = &q; e_arbitrary = 1; iter_reset(&q);
+  in_value = nondet_u64(); XV_ASSUME(in_value != 0 && in_value <= PTR_MASK);
+  kfq_push_cut(&q, in_value);
+  e_on = 0;
+  /* reached only on return: the value was stored by a CAS that expected the word find_index read in the segment the guard protects, after re-reading an unchanged tail_, and committed() agreed */
+  marked_value nv = MV_make(in_value, MV_mark(rec_fi_old) + 1);
+  XV_OBL("kfq.push.validate", rec_fi_n == 1 && rec_fi_ret && rec_fi_seg == mon_tail_first && mon_tail_loads == 2 && mon_tail_last == mon_tail_first && mon_tail_last_clock > rec_fi_clock);
+  XV_OBL("kfq.push.validate", mon_slot_cas_n == 1 && mon_slot_cas_ok && mon_slot_cas_seg == MV_get(mon_tail_first) && mon_slot_cas_idx == rec_fi_idx && mon_slot_cas_e == rec_fi_old && mon_slot_cas_d == nv && mon_slot_cas_clock > mon_tail_last_clock);
+  XV_OBL("kfq.push.validate", rec_cm_n == 1 && rec_cm_ret && rec_cm_seg == mon_tail_first && rec_cm_v == nv && rec_cm_idx == rec_fi_idx && rec_cm_clock > mon_slot_cas_clock);
+  XV_OBL("kfq.push.validate", g_released_values == 1 && rec_at_n == 0 && mon_head_cas_n == 0 && mon_tail_cas_n == 0 && g_mem_ok);
+  XV_OBL("kfq.sync.orders", XV_IS_RELEASE(mon_slot_cas_order) && XV_IS_ACQUIRE(mon_tail_first_order));
+  XV_CANARY("push_int.returned");
+}
+static void pop_int_case(uint64_t k) {
+  struct kfq q; q.k_ = k; pool_all_live(k); e_q = &q; e_arbitrary = 1; iter_reset(&q);
+  in_res0 = nondet_uptr(); value_type res = in_res0;
+  _Bool r = kfq_do_pop_cut(&q, &res);
+  e_on = 0;
+  XV_OBL("kfq.pop.validate", rec_fi_n == 1 && rec_fi_seg == mon_head_first && mon_head_loads == 2 && mon_head_last == mon_head_first && mon_head_last_clock > rec_fi_clock && g_mem_ok);
+  if (r) {
+    XV_OBL("kfq.pop.validate", rec_fi_ret && mon_slot_cas_n == 1 && mon_slot_cas_ok && mon_slot_cas_seg == MV_get(mon_head_first) && mon_slot_cas_idx == rec_fi_idx && mon_slot_cas_e == rec_fi_old && mon_slot_cas_d == MV_make(0, MV_mark(rec_fi_old) + 1) && mon_slot_cas_clock > mon_head_last_clock);
+    XV_OBL("kfq.pop.validate", res == MV_get(rec_fi_old) && g_stored == 1 && rec_ah_n == 0);
+    /* a consumer that takes from the segment tail_ still points to first moves tail_ on */
+    if (MV_get(mon_head_first) == MV_get(mon_tail_first)) { XV_OBL("kfq.pop.validate", rec_at_n == 1 && rec_at_t == mon_tail_first && rec_at_clock < mon_slot_cas_clock); XV_CANARY("pop_int.moved_tail"); }
+    else XV_OBL("kfq.pop.validate", rec_at_n == 0);
+    XV_OBL("kfq.sync.orders", XV_IS_ACQUIRE(mon_slot_cas_order) && XV_IS_ACQUIRE(mon_head_first_order) && XV_IS_ACQUIRE(mon_tail_first_order));
+    XV_CANARY("pop_int.true");
+  } else {
+    XV_OBL("kfq.pop.validate", !rec_fi_ret && MV_get(mon_head_first) == MV_get(mon_tail_first) && mon_tail_loads == 2 && mon_tail_last == mon_tail_first && mon_tail_last_clock > mon_head_last_clock);
+    XV_OBL("kfq.pop.validate", res == in_res0 && g_stored == 0 && mon_slot_cas_n == 0 && rec_ah_n == 0 && rec_at_n == 0);
+    XV_CANARY("pop_int.empty");
+  }
+}
+#endif
+void h_push_int(void) {
+#if defined(XV_INT) && XV_STUB == 2
+  FOR_K(push_int_case(k_));
+#endif
+}
+void h_pop_int(void) {
+#if defined(XV_INT) && XV_STUB == 2
+  FOR_K(pop_int_case(k_));
+#endif
+}
+#ifdef XV_INT
+/* advance_head under arbitrary interference: nothing is written unless head_ still equals the guard; the segment is marked deleted before the head CAS; the CAS goes from the guard's
+ * word to (successor read from the guard's segment, mark+1); the segment is retired iff that CAS succeeded */
+static void advance_head_int_case(uint64_t k) {
+  struct kfq q; q.k_ = k; pool_all_live(k); e_q = &q; e_arbitrary = 1; iter_reset(&q);
+  guard_ptr g = MV_make(env_ptr(0), any_mark()), g0 = g; marked_ptr t = MV_make(env_ptr(0), any_mark());
+  unsigned char r0 = g_retired[MV_get(g0) - 1];
+  g_retire_ok = 1;
+  kfq_advance_head(&q, &g, t);
+  e_on = 0;
+  if (mon_head_cas_n) {
+    XV_OBL("kfq.advance_head.retire", mon_head_cas_n == 1 && mon_head_cas_e == g0 && MV_mark(mon_head_cas_d) == ((MV_mark(g0) + 1) & 0xffff) && mon_head_loads == 1 && mon_head_last == g0);
+    XV_OBL("kfq.advance_head.retire", mon_deleted_stores == 1 && mon_deleted_seg == MV_get(g0) && mon_deleted_clock < mon_head_cas_clock);
+    XV_OBL("kfq.advance_head.retire", (g_retired[MV_get(g0) - 1] == r0 + 1) == mon_head_cas_ok && (g == 0) == mon_head_cas_ok);
+    XV_OBL("kfq.sync.orders", XV_IS_RELEASE(mon_head_cas_order));
+    if (mon_head_cas_ok) XV_CANARY("advance_head_int.retired"); else XV_CANARY("advance_head_int.lost_race");
+  } else {
+    XV_OBL("kfq.advance_head.retire", mon_deleted_stores == 0 && g_retired[MV_get(g0) - 1] == r0 && g == g0 && mon_tail_cas_n == 0);
+    XV_CANARY("advance_head_int.nothing");
+  }
+  if (mon_tail_cas_n) {
+    XV_OBL("kfq.advance_head.retire", mon_tail_cas_n == 1 && MV_get(g0) == MV_get(t) && mon_tail_cas_e == t && mon_tail_loads == 1 && mon_tail_last == t && MV_get(mon_tail_cas_d) != 0);
+    XV_OBL("kfq.sync.orders", XV_IS_RELEASE(mon_tail_cas_order));
+    XV_CANARY("advance_head_int.moved_tail");
+  }
+  XV_OBL("kfq.advance_head.retire", g_allocs == 0 && mon_slot_cas_n == 0 && mon_next_cas_n == 0 && g_mem_ok && g_release_ok && !mon_plain_store_ht);
+  XV_OBL("kfq.sync.orders", !mon_next_load_weak);
+}
+/* advance_tail under arbitrary interference: nothing happens unless tail_ still equals the word passed in; a fresh segment is either linked (next CAS from the null word read) and never
+ * released, or released exactly once; tail_ is only CASed from the word passed in to the successor */
+static void advance_tail_int_case(uint64_t k) {
+  struct kfq q; q.k_ = k; pool_all_live(k); e_q = &q; e_arbitrary = 1; iter_reset(&q);
+  marked_ptr t = MV_make(env_ptr(0), any_mark());
+  kfq_advance_tail(&q, t);
+  e_on = 0;
+  XV_OBL("kfq.advance_tail.links", mon_tail_loads == 1 && (mon_tail_last == t || (mon_tail_cas_n == 0 && mon_next_cas_n == 0 && g_allocs == 0)));
+  XV_OBL("kfq.sync.orders", !mon_next_load_weak);
+  XV_OBL("kfq.advance_tail.links", g_allocs <= 1 && mon_head_cas_n == 0 && mon_slot_cas_n == 0 && mon_deleted_stores == 0 && g_mem_ok && g_release_ok && !mon_plain_store_ht);
+  if (g_allocs) {
+    uint64_t fresh = LMAX;       /* the lowest free pool slot was LMAX-1 */
+    XV_OBL("kfq.advance_tail.links", mon_next_cas_n == 1 && mon_next_cas_seg == MV_get(t) && MV_get(mon_next_cas_e) == 0 && MV_get(mon_next_cas_d) == fresh);
+    XV_OBL("kfq.advance_tail.links", g_released[fresh - 1] == (mon_next_cas_ok ? 0 : 1));
+    XV_OBL("kfq.advance_tail.links", mon_next_cas_ok ? (mon_tail_cas_n == 1 && mon_tail_cas_e == t && MV_get(mon_tail_cas_d) == fresh) : mon_tail_cas_n == 0);
+    XV_OBL("kfq.sync.orders", XV_IS_RELEASE(mon_next_cas_order) && (!mon_tail_cas_n || XV_IS_RELEASE(mon_tail_cas_order)));
+    if (mon_next_cas_ok) XV_CANARY("advance_tail_int.linked"); else XV_CANARY("advance_tail_int.released_fresh");
+  } else if (mon_tail_cas_n) {
+    XV_OBL("kfq.advance_tail.links", mon_tail_cas_n == 1 && mon_tail_cas_e == t && MV_get(mon_tail_cas_d) != 0 && mon_next_cas_n == 0);
+    XV_OBL("kfq.sync.orders", XV_IS_RELEASE(mon_tail_cas_order));
+    XV_CANARY("advance_tail_int.helped");
+  } else XV_CANARY("advance_tail_int.nothing");
+}
+#endif
+void h_advance_head_int(void) {
+#ifdef XV_INT
+  FOR_K(advance_head_int_case(k_));
+#endif
+}
+void h_advance_tail_int(void) {
+#ifdef XV_INT
+  FOR_K(advance_tail_int_case(k_));
+#endif
+}
